@@ -11,7 +11,7 @@ _spec.loader.exec_module(_c01)
 
 ID = "C12"
 COQ_TARGETS = ["props/C12.vo", "model/MuxCheck.vo"]
-THEOREMS_ALL = [
+THEOREMS = [
     ("EG.props.C12", "C12_key_injective"),
     ("EG.props.C12", "C12_cache_sound_invariant"),
     ("EG.props.C12", "C12_hit_equals_miss"),
@@ -22,7 +22,6 @@ THEOREMS_ALL = [
     ("EG.props.C12", "C12_refuted_q_cache_status_before_ipfilter"),
     ("EG.props.C12", "C12_refuted_q_cache_rule_filter_skipped"),
 ]
-THEOREMS = [("EG.props.C12", "C12_tmp")]  # TEMP
 HARNESSES = [
     dict(name="cache", pkg="pkg/object/httpserver",
          files=["harness/httpserver/zz_verif_c01_test.go", "harness/httpserver/zz_verif_c12_test.go"],
